@@ -136,6 +136,10 @@ pub struct Signature {
 
 impl Signature {
     pub(crate) fn from_bytes_verbose(bytes: &[u8], _hash_iterations: u32) -> Result<Self, Error> {
+        // ArrayVec keeps its length in a u16 (and panics beyond that)
+        if bytes.len() > u16::MAX as usize {
+            return Err(Error::new());
+        }
         let bytes = ArrayVec::try_from(bytes).map_err(|_| Error::new())?;
 
         Ok(Self {
